@@ -77,6 +77,26 @@ class Run:
         if self.budget[0] < 0:
             raise Unsupported('step limit (no termination within %d steps)' % MAX_STEPS)
 
+    def const_table(self, e):
+        """buffer name of a const-qualified namespace-scope / static array with a constant initialiser (look-up table)"""
+        qn = e.get('q')
+        g = self.prog.globals.get(qn) if qn else None
+        if g is None or not g.get('const'):
+            return None
+        name = ('G', qn)
+        if name not in self.bufs:
+            if 'vals' in g:
+                vals = list(g['vals'])
+            elif (g.get('init') or {}).get('k') == 'str':
+                vals = list(g['init']['b']) + [0]
+            else:
+                return None
+            n_ = T(g, g.get('t')).get('n') if g.get('_types') is not None else None
+            if n_ and n_ > len(vals):
+                vals += [0] * (n_ - len(vals))
+            self.bufs[name] = vals
+        return name
+
     # ------------------------------------------------------------ memory
     def load(self, p, line):
         if not (isinstance(p, tuple) and p[0] == 'P'):
@@ -118,6 +138,9 @@ class Run:
         if k == 'idx':
             p = self.val(e['b'])
             i = self.val(e['i'])
+            if isinstance(p, tuple) and hasattr(i, 'candidates'):
+                # abstract index: the element is the join of the elements at every index the abstract value admits
+                return ('bufs', [('P', p[1], p[2] + k_) for k_ in i.candidates()], T(self.f, e.get('t')), e.get('l'))
             if not (isinstance(p, tuple) and isinstance(i, int)):
                 raise Unsupported('index expression `%s`' % pe(e))
             return ('buf', ('P', p[1], p[2] + i), T(self.f, e.get('t')), e.get('l'))
@@ -136,9 +159,17 @@ class Run:
             if l[1] not in self.mems:
                 raise Unsupported('read of member %s' % l[1])
             return self.mems[l[1]]
+        if l[0] == 'bufs':
+            vals = [self.load(p_, l[3]) for p_ in l[1]]
+            if all(isinstance(v_, int) for v_ in vals) and len(set(vals)) == 1:
+                return vals[0]
+            import absim
+            return absim.join(vals)
         return self.load(l[1], l[3])
 
     def put(self, l, v):
+        if l[0] == 'bufs':
+            raise Unsupported('store through an abstract index')
         if l[0] == 'var' and l[1] in self.boxed:
             self.bufs[self.boxed[l[1]]][0] = wrap(v, l[2])
         elif l[0] == 'var':
@@ -166,6 +197,10 @@ class Run:
                 inner = strip_lv(e['e'])
                 if inner.get('k') == 'var' and ('A', inner['id']) in self.bufs:
                     return ('P', ('A', inner['id']), 0)
+                if inner.get('k') == 'var':
+                    g = self.const_table(inner)
+                    if g is not None:
+                        return ('P', g, 0)
                 if inner.get('k') == 'str':
                     name = ('S', id(inner))
                     self.bufs[name] = list(inner['b']) + [0]
@@ -194,6 +229,9 @@ class Run:
                 return e['cv']
             if ('A', e['id']) in self.bufs:
                 return ('P', ('A', e['id']), 0)
+            g = self.const_table(e)
+            if g is not None:
+                return ('P', g, 0)
             raise Unsupported('variable %s' % e.get('n'))
         if k == 'mem':
             return self.get(self.lv(e))
